@@ -36,6 +36,17 @@ def gen(rng, tier, i):
                             'data': {'k': 's', 'v': 'x'}})
         plan['app'].append({'t': 0.001, 'op': 'disconnect', 'sid': 'nobody'})
         plan['app'].sort(key=lambda o: o['t'])
+    if rng.random() < 0.3:
+        # content codings offered in every spelling, and responses long
+        # enough to be worth compressing
+        from .c19 import ACCEPT
+        plan['config']['compression_threshold'] = rng.choice(
+            [1024, 0, 1, 50])
+        for s in plan['sessions']:
+            ae = rng.choice(ACCEPT)
+            if ae is not None:
+                s['headers'] = [h for h in s.get('headers', [])] + [
+                    ['Accept-Encoding', ae]]
     return plan
 
 
